@@ -37,7 +37,10 @@ CONSTANTS
   V_LockFromCounter,    \* TRUE: lock value = counter; FALSE: start + number inserted
   V_Handled,            \* subset of {"INT","TERM"} wired to the stop flag
   V_InterruptedCheckFails,
-  V_OverflowFails       \* TRUE: exhausting the ID range is an error; FALSE: wraps to 0
+  V_OverflowFails,      \* TRUE: exhausting the ID range is an error; FALSE: wraps to 0
+  EnvTmp                \* the environment's TMPDIR (Env.tla): "usable" | "nocreate" (missing / name not UTF-8: every
+                        \* CreateTmp fails) | "norename" (another file system: every RenameTmp fails); these failures
+                        \* are not counted against MaxFaults
 
 Files == 1..NFiles
 XNone     == -1
@@ -207,10 +210,12 @@ Fault == g' = [g EXCEPT !.faults = @ + 1, !.failedUpdate = TRUE]
 CreateTmp ==
   /\ p.pc = "create"
   /\ LET f == p.order[p.i] IN
-     \/ /\ tmpdir' = tmpdir \cup {f}
+     \/ /\ EnvTmp # "nocreate"
+        /\ tmpdir' = tmpdir \cup {f}
         /\ p' = [p EXCEPT !.pc = "write", !.cur = [data |-> tree[f], pos |-> 0, dur |-> 0, created |-> 0, err |-> FALSE]]
         /\ g' = g
-     \/ /\ CanFault /\ Fault
+     \/ /\ \/ CanFault /\ Fault
+           \/ EnvTmp = "nocreate" /\ g' = [g EXCEPT !.failedUpdate = TRUE]
         /\ p' = [p EXCEPT !.pc = "p2", !.i = @ + 1, !.failure = TRUE]
         /\ UNCHANGED tmpdir
   /\ UNCHANGED <<present, bad, tree, upto, lock>>
@@ -269,12 +274,14 @@ NewIds(f, data, n) == {<<data[j].ref, data[j].uid>> : j \in {k \in 1..Len(data) 
 RenameTmp ==
   /\ p.pc = "rename"
   /\ LET f == p.order[p.i]  c == p.cur IN
-     \/ /\ tree' = [tree EXCEPT ![f] = c.data]
+     \/ /\ EnvTmp # "norename"
+        /\ tree' = [tree EXCEPT ![f] = c.data]
         /\ upto' = [upto EXCEPT ![f] = c.dur]
         /\ tmpdir' = tmpdir \ {f}
         /\ g' = [g EXCEPT !.written = @ \cup NewIds(f, c.data, c.dur)]
         /\ p' = [p EXCEPT !.pc = "drop", !.inserted = @ + c.created]
-     \/ /\ CanFault /\ Fault
+     \/ /\ \/ CanFault /\ Fault
+           \/ EnvTmp = "norename" /\ g' = [g EXCEPT !.failedUpdate = TRUE]
         /\ p' = [p EXCEPT !.pc = "drop", !.failure = TRUE, !.inserted = @ + c.created, !.cur = [c EXCEPT !.err = TRUE]]
         /\ UNCHANGED <<tree, upto, tmpdir>>
   /\ UNCHANGED <<present, bad, lock>>
@@ -398,6 +405,9 @@ ExitZeroDone == (Ended("edit") /\ g.exit = 0) => ~AnyMissing(Visible)
 (* C02 *)
 InvLockDominates == (AtEnd /\ g.cacheUsed /\ g.mode = "edit") => LockDominates(lock, g.written)
 InvNoReuse == NoReuse(g.written)
+(* an environment whose TMPDIR cannot be used never lets a run change a source file, and such a run never reports success
+   when there was something to insert (FailureMeansNonZero covers the exit status) *)
+EnvBlocksUpdates == EnvTmp # "usable" => g.written = {}
 IdleLockDominates == p.pc = "idle" => LockDominates(lock, g.written)
 (* C18 *)
 InterruptedCheckNeverPasses == (Ended("check") /\ g.interrupted /\ AnyMissing(Visible)) => g.exit # 0
